@@ -74,6 +74,27 @@ SEEDS = [
  ('C19-3', '_round3/C19', 'patch2.diff', 'demo2_test.py', 'C19', ['C19', 'C17'], 'one loader-less LoadSaveContext reused for two loads, the first state recorded a custom loader'),
  ('C20-3', '_round3/C20', 'patch.diff', 'demo_test.py', 'C20', ['C20'], 'nesting depth >= 2, inner future cancelled before the outer level resolves to it'),
  ('C20-4', '_round3/C20', 'patch2.diff', 'demo2_test.py', 'C20', ['C20'], 'CancellableAction whose first run raised, then run() again'),
+ # round 4 (made against the repaired tree at 4e8c357)
+ ('C03-4', '_round4/C03', 'patch.diff', 'demo_test.py', 'C03', ['C03'], 'deferred pause (requested while a step is in flight) whose pause hook raises, then another pause (second independent occurrence)'),
+ ('C03-5', '_round4/C03', 'patch2.diff', 'demo2_test.py', 'C03', ['C03', 'C02'], 'fault in a hook that runs after a terminal state was entered (on_finished/on_killed/on_terminated): EXCEPTED but never closed, paused stepper not released'),
+ ('C04-4', '_round4/C04', 'patch.diff', 'demo_test.py', 'C04', ['C04'], 'future().cancel() on a process restored from a checkpoint (third independent occurrence)'),
+ ('C04-5', '_round4/C04', 'patch2.diff', 'demo2_test.py', 'C04', ['C04', 'C05'], 'blocked WAITING step, resume() then kill()/pause() between the same two callbacks: InvalidStateError out of the call'),
+ ('C05-5', '_round4/C05', 'patch.diff', 'demo_test.py', 'C05', ['C05'], 'status set, pause requested while a step is in flight, play() before the step boundary: status wiped, played event without paused'),
+ ('C05-6', '_round4/C05', 'patch2.diff', 'demo2_test.py', 'C05', ['C05'], 'pause, play, pause all inside one step: the second pause is ignored'),
+ ('C06-3', '_round4/C06', 'patch.diff', 'demo_test.py', 'C06', ['C06', 'C05'], 'pause(); resume(a); resume(b) in one gap on a blocked wait (first value lost), or pause from on_process_waiting + resume while paused (wake-up lost)'),
+ ('C06-4', '_round4/C06', 'patch2.diff', 'demo2_test.py', 'C06', ['C06'], 'last awaited future completes and pause() is requested in the same gap, completion first'),
+ ('C07-4', '_round4/C07', 'patch.diff', 'demo_test.py', 'C07', ['C07', 'C08'], 'checkpoint inside an elif_/else_ body whose shape differs from the first body (third independent occurrence)'),
+ ('C07-5', '_round4/C07', 'patch2.diff', 'demo2_test.py', 'C07', ['C19', 'C07'], 'one LoadSaveContext object reused across load/save operations (second independent occurrence)'),
+ ('C08-3', '_round4/C08', 'patch.diff', 'demo_test.py', 'C08', ['C08'], 'crash point inside an elif_/else_ body of >= 2 steps (fourth independent occurrence)'),
+ ('C08-4', '_round4/C08', 'patch2.diff', 'demo2_test.py', 'C08', ['C08', 'C07'], 'while_ body of >= 2 steps, crash mid-body, the SAME in-memory bundle unbundled twice'),
+ ('C09-4', '_round4/C09', 'patch.diff', 'demo_test.py', 'C09', ['C09'], 'value-returning step that completes a pass over a while_ body'),
+ ('C09-5', '_round4/C09', 'patch2.diff', 'demo2_test.py', 'C09', ['C09'], 'two return_ instructions with different codes anywhere in the interpreter'),
+ ('C10-4', '_round4/C10', 'patch.diff', 'demo_test.py', 'C10', ['C10'], 'pause, an awaited item fails while paused, then play'),
+ ('C10-5', '_round4/C10', 'patch2.diff', 'demo2_test.py', 'C10', ['C10'], 'an awaited item that is already complete when WAITING is entered'),
+ ('C14-3', '_round4/C14', 'patch.diff', 'demo_test.py', 'C14', ['C14'], 'in-memory persister: delete of an absent key while the process has exactly one checkpoint left'),
+ ('C14-4', '_round4/C14', 'patch2.diff', 'demo2_test.py', 'C14', ['C14'], 'pickle persister: one process holding an untagged and a tagged checkpoint, then any listing'),
+ ('C16-4', '_round4/C16', 'patch.diff', 'demo_test.py', 'C16', ['C16'], 'rpc pause then rpc play before the pause handler ran'),
+ ('C16-5', '_round4/C16', 'patch2.diff', 'demo2_test.py', 'C16', ['C16'], 'same-label transitions (running->running of Continue / outline steps) with a communicator'),
 ]
 
 
